@@ -278,7 +278,13 @@ def eval_case(ctx, case):
             ctx.violation("collect:not-at-end", "with footnote_sort the definitions are not all at the end of the document", case, detail)
         else:
             labs = [f[0].astext() for f in all_f if len(f) and isinstance(f[0], nodes.label)]
-            if labs != sorted(labs, key=lambda s: (0, int(s), "") if s.isascii() and s.isdigit() else (1, 0, s)):
+            def _num_key(s):
+                try:
+                    return (0, int(s), "")  # anything that reads as an integer sorts by its value (also digits of other scripts)
+                except ValueError:
+                    return (1, 0, s)
+
+            if labs != sorted(labs, key=_num_key):
                 ctx.violation("collect:order", f"collected footnotes are in label order {labs}", case, detail)
             others = kids[: len(kids) - len(all_f)]
             want_t = 1 if (trans and all_f and others) else 0
@@ -314,7 +320,7 @@ def eval_case(ctx, case):
 
 # ------------------------------------------------------------------------------------------- workload
 
-LABELS = ["a", "b", "c", "note-x", "1", "2", "10", "Z", "05", "007", "3", "d", "e", "f", "g", "h", "k"]  # zero-padded numbers are numbers
+LABELS = ["a", "b", "c", "note-x", "1", "2", "10", "Z", "05", "007", "3", "d", "e", "f", "g", "h", "k", "²", "①", "٣"]  # zero-padded numbers are numbers
 
 
 def make_case(R):
